@@ -120,7 +120,7 @@ class ModelMixin3:
 
     def copy_elem(self, e: Ref, st: State, node, deep=True):
         ee: ElemE = st.get(e.sym)
-        sym = st.new(ElemE('COPY', ee.tag, None, False, ('copy', S(e.sym)), schema=ee.schema, copy_of=e.sym))
+        sym = st.new(ElemE('COPY', ee.tag, None, False, ('copy', S(e.sym)), schema=ee.schema, copy_of=e.sym, stag=ee.stag))
         self.hook('copy', st, node, src=e, result=Ref('elem', sym), deep=deep)
         return [(Ref('elem', sym), st)]
 
@@ -485,7 +485,7 @@ class ModelMixin3:
                     return [(self.exc('ValueError', st, node, f'invalid literal for {name}()'), st)]
             if isinstance(a0, StrV):
                 self.hook('numparse', st, node, fn=name, arg=a0)
-                return [(NumV(('parsed-' + name, a0.origin)), st)]
+                return [(NumV(('parsed-' + name,)), st)]
             return [(NumV(), st)]
         if name in ('str', 'repr', 'format'):
             if isinstance(a0, Const):
